@@ -1,45 +1,73 @@
 (* C16/Model.v — executable model of template evaluation in mpf/core/placeholder_manager.py
-   (BasePlaceholderManager._eval*, BaseTemplate.evaluate / evaluate_and_subscribe) and of the
-   re-evaluate / re-subscribe loop of ConfigPlayer._update_subscription over a store of machine
-   variables, settings, player variables and monitored device attributes.
+   (BasePlaceholderManager._eval*, BaseTemplate.evaluate / evaluate_and_subscribe, the *Placeholder
+   classes and what their subscribe / subscribe_attribute wait for) and of the re-evaluate /
+   re-subscribe loop of ConfigPlayer._update_subscription over a store of machine variables,
+   settings, monitored device attributes, the players of the running game (current_player hand-over,
+   players[n]), mode and game attributes.
 
-   The three operator tables are NOT written here: gen/Tables.v is regenerated from the dict
-   literals OPERATORS / BOOL_OPERATORS / COMPARISONS of the module on every run (harness/props/c16.py,
+   The three operator tables and the node-class dispatch table are NOT written here: gen/Tables.v is
+   regenerated from the dict literals OPERATORS / BOOL_OPERATORS / COMPARISONS and from
+   BasePlaceholderManager.__init__'s _eval_methods of the module on every run (harness/props/c16.py,
    translate()).
 
    The model is of the code WITH the proposed fixes fixes/C16-*.patch applied (see NOTES.md):
    unary operators convert TypeError into TemplateEvalError like the binary ones; IfExp keeps the
    subscriptions of its test when the taken branch fails; removing a machine variable posts
-   machine_var_<name>.
+   machine_var_<name>; current_player / players placeholders are also woken when the game mode has
+   stopped (mode_game_stopped).  The unfixed game-end behaviour is kept as [announced_unfixed].
 
    Definitions only; proofs are in Lemmas.v. *)
 From Common Require Import Prelude.
+From Coq Require Import QArith Qround.
 From C16 Require Export Syntax.
 From C16.gen Require Export Tables.
 Open Scope Z_scope.
 
-(* ---- store locations a template can read ---------------------------------------------------- *)
+(* ---- cells and channels ------------------------------------------------------------------------
+   A [loc] names a CELL of the machine state a template can read and/or a CHANNEL a template can wait
+   on (an event name or a DeviceMonitor attribute future).  For machine variables, settings and device
+   attributes cell and channel coincide.  A player variable is the cell [LPlayerI g i x] (variable x
+   of player index i of the g-th game since boot: every game creates new Player objects); its channel
+   is [LPlayerEv x] (event player_<x>, posted for a change of ANY player's x).  [LTurn] is the cell
+   "which player is up / is there a game" and the channel player_turn_ended|player_turn_started
+   (|mode_game_stopped); [LPlayers] the cell "how many players / is there a game" and the channel
+   player_added|game_ended(|mode_game_stopped).  Mode and game attributes are cells without a channel:
+   ModePlaceholder and the Game object have no subscribe(). *)
 Inductive loc :=
-  | LMachine (n : str)                 (* machine.n  /  machine["n"] *)
+  | LMachine (n : str)                 (* machine.n *)
   | LSetting (n : str)                 (* settings.n *)
-  | LPlayer (n : str)                  (* current_player.n *)
-  | LDevice (c d a : str).             (* device.c.d.a *)
+  | LDevice (c d a : str)              (* device.c.d.a *)
+  | LTurn
+  | LPlayers
+  | LPlayerI (g i : Z) (x : str)
+  | LPlayerEv (x : str)                (* channel only *)
+  | LMode (m a : str)                  (* mode.m.a *)
+  | LGame (a : str).                   (* game.a *)
 
 Definition loc_eqb (x y : loc) : bool :=
   match x, y with
-  | LMachine a, LMachine b | LSetting a, LSetting b | LPlayer a, LPlayer b => zs_eqb a b
+  | LMachine a, LMachine b | LSetting a, LSetting b | LPlayerEv a, LPlayerEv b | LGame a, LGame b => zs_eqb a b
   | LDevice a b c, LDevice a' b' c' => zs_eqb a a' && zs_eqb b b' && zs_eqb c c'
+  | LTurn, LTurn | LPlayers, LPlayers => true
+  | LPlayerI g i a, LPlayerI g' i' a' => (g =? g') && (i =? i') && zs_eqb a a'
+  | LMode a b, LMode a' b' => zs_eqb a a' && zs_eqb b b'
   | _, _ => false
   end.
 
-(* what reading a location gives: a value, ValueError (player outside a game, unknown device
-   attribute), or another exception (unknown setting / device: AssertionError) *)
+(* the channel on which a change of the cell is announced *)
+Definition chan_of (l : loc) : loc :=
+  match l with LPlayerI _ _ x => LPlayerEv x | _ => l end.
+
+(* what reading a cell gives: a value, ValueError (player outside a game, unknown device attribute,
+   unknown mode, game outside a game), or another exception (unknown setting / device: AssertionError,
+   unknown game attribute: AttributeError) *)
 Inductive rd := RVal (v : value) | RValErr | RCrash.
 
 Record env := mkEnv {
   params : list (str * value);         (* the [parameters] dict handed to evaluate() *)
-  store : list (loc * rd);             (* explicit entries *)
-  in_game : bool }.
+  store : list (loc * rd);             (* explicit cell contents *)
+  games : Z;                           (* number of games started since boot *)
+  game : option (Z * Z) }.             (* running game: (index of the player who is up, number of players) *)
 
 Fixpoint lookup_loc (l : loc) (s : list (loc * rd)) : option rd :=
   match s with
@@ -49,69 +77,159 @@ Fixpoint lookup_loc (l : loc) (s : list (loc * rd)) : option rd :=
 
 Definition sread (e : env) (l : loc) : rd :=
   match l with
-  | LPlayer _ =>
-      if in_game e then match lookup_loc l (store e) with Some r => r | None => RVal (VInt 0) end
-      else RValErr                                   (* PlayerPlaceholder: "Not in a game" *)
   | LMachine _ => match lookup_loc l (store e) with Some r => r | None => RVal VNone end
-  | _ => match lookup_loc l (store e) with Some r => r | None => RCrash end
+  | LSetting _ | LDevice _ _ _ => match lookup_loc l (store e) with Some r => r | None => RCrash end
+  | LTurn => match game e with
+             | Some (c, _) => RVal (VTuple [VInt (games e); VInt c])
+             | None => RValErr                                    (* "Not in a game" *)
+             end
+  | LPlayers => match game e with
+                | Some (_, n) => RVal (VTuple [VInt (games e); VInt n])
+                | None => RValErr
+                end
+  | LPlayerI _ _ _ => match lookup_loc l (store e) with Some r => r | None => RVal (VInt 0) end   (* Player.__getattr__ *)
+  | LPlayerEv _ => RCrash                                         (* not a cell *)
+  | LMode _ _ => match lookup_loc l (store e) with Some r => r | None => RValErr end   (* not a valid mode name *)
+  | LGame _ => match lookup_loc l (store e) with Some r => r | None => RCrash end   (* AttributeError *)
   end.
+
+(* ---- what a template can name ------------------------------------------------------------------- *)
+Inductive rdesc :=
+  | RCell (l : loc)                    (* machine.n, settings.n, device.c.d.a, mode.m.a, game.a *)
+  | RCur (x : str)                     (* current_player.x *)
+  | RPlayerN (i : Z) (x : str).        (* players[i].x, constant i >= 0 *)
+
+Definition rread (e : env) (r : rdesc) : rd :=
+  match r with
+  | RCell (LGame a) => match game e with
+                       | Some _ => sread e (LGame a)
+                       | None => RValErr                          (* Missing variable game *)
+                       end
+  | RCell l => sread e l
+  | RCur x => match game e with
+              | Some (c, _) => sread e (LPlayerI (games e) c x)
+              | None => RValErr
+              end
+  | RPlayerN i x => match game e with
+                    | Some (_, n) => if (0 <=? i) && (i <? n) then sread e (LPlayerI (games e) i x)
+                                     else if i <? 0 then RCrash else RValErr      (* "Player not in game" *)
+                    | None => RValErr
+                    end
+  end.
+
+(* the cells Python's evaluation of the name reads *)
+Definition rcells (e : env) (r : rdesc) : list loc :=
+  match r with
+  | RCell l => [l]
+  | RCur x => LTurn :: match game e with Some (c, _) => [LPlayerI (games e) c x] | None => [] end
+  | RPlayerN i x => LPlayers :: match game e with
+                                | Some (_, n) => if (0 <=? i) && (i <? n) then [LPlayerI (games e) i x] else []
+                                | None => []
+                                end
+  end.
+
+(* the futures MPF's walk collects for it (futures that never complete are left out: machine.subscribe(),
+   settings.subscribe(), Device*Placeholder.subscribe()) *)
+Definition rsubs (r : rdesc) : list loc :=
+  match r with
+  | RCell l => [l]
+  | RCur x => [LTurn; LPlayerEv x]
+  | RPlayerN _ x => [LPlayers; LPlayerEv x]
+  end.
+
+Definition unsubscribable (r : rdesc) : bool :=
+  match r with RCell (LMode _ _) | RCell (LGame _) => true | _ => false end.
 
 (* ---- expressions ---------------------------------------------------------------------------- *)
 (* BoolOp with n operands is the left-nested binary form: MPF folds [values] from the left after
-   evaluating each operand in turn, which is exactly the evaluation order of the nested form. *)
+   evaluating each operand in turn, which is exactly the evaluation order of the nested form.
+   A tuple display (a, b, c) is ETupCons a (ETupCons b (ETupCons c ETupNil)): elements are evaluated
+   left to right and the first exception wins, in Python and in MPF's _eval_tuple alike. *)
 Inductive expr :=
-  | ENum (z : Z) | EStr (s : str) | ENone | EBoolC (b : bool)
+  | ENum (z : Z) | EFlt (n : Z) (d : positive) | EStr (s : str) | ENone | EBoolC (b : bool)
   | EName (x : str)
-  | ERead (l : loc)
+  | ERead (r : rdesc)
   | EBin (o : opkey) (a b : expr)
   | EUn (o : opkey) (a : expr)
   | ECmp (o : cmpkey) (a b : expr)
   | EBool (o : boolkey) (a b : expr)
-  | EIf (c a b : expr).
+  | EIf (c a b : expr)
+  | ETupNil
+  | ETupCons (a rest : expr)
+  | EIndex (a i : expr).               (* a[i] *)
+
+Fixpoint is_tuple_expr (e : expr) : bool :=
+  match e with ETupNil => true | ETupCons _ r => is_tuple_expr r | _ => false end.
+
+Definition supported_read (r : rdesc) : bool :=
+  match r with
+  | RCell (LMachine _) | RCell (LSetting _) | RCell (LDevice _ _ _) | RCell (LMode _ _) | RCell (LGame _) => true
+  | RCell _ => false
+  | RCur _ => true
+  | RPlayerN i _ => 0 <=? i
+  end.
 
 Fixpoint supported (e : expr) : bool :=
   match e with
+  | ERead r => supported_read r
   | EBin o a b => supported_bin o && supported a && supported b
   | EUn o a => supported_un o && supported a
   | ECmp o a b => supported_cmp o && supported a && supported b
   | EBool _ a b => supported a && supported b
   | EIf c a b => supported c && supported a && supported b
+  | ETupCons a r => is_tuple_expr r && supported a && supported r
+  | EIndex a i => supported a && supported i
+  | _ => true
+  end.
+
+(* no mode.* / game.* inside: the only names evaluate_and_subscribe cannot subscribe to *)
+Fixpoint subscribable (e : expr) : bool :=
+  match e with
+  | ERead r => negb (unsubscribable r)
+  | EBin _ a b | ECmp _ a b | EBool _ a b | ETupCons a b | EIndex a b => subscribable a && subscribable b
+  | EUn _ a => subscribable a
+  | EIf c a b => subscribable c && subscribable a && subscribable b
   | _ => true
   end.
 
 (* ---- reference: Python's evaluation (all BoolOp operands evaluated) --------------------------- *)
 Inductive pres :=
-  | PVal (v : value) | PTypeErr | PZeroDiv
+  | PVal (v : value) | PTypeErr | PZeroDiv | PIndexErr
   | PNameErr          (* a name that is not a parameter *)
-  | PReadErr          (* the location cannot be read (ValueError) *)
-  | PCrash            (* unknown setting / device *)
+  | PReadErr          (* the name cannot be read (ValueError) *)
+  | PCrash            (* unknown setting / device / game attribute *)
   | PUnsup.
 
 Definition pres_of (r : res) : pres :=
-  match r with Val v => PVal v | TypeErr => PTypeErr | ZeroDiv => PZeroDiv | Unsup => PUnsup end.
+  match r with Val v => PVal v | TypeErr => PTypeErr | ZeroDiv => PZeroDiv | IndexErr => PIndexErr | Unsup => PUnsup end.
 
 Definition pbind (r : pres) (k : value -> pres) : pres := match r with PVal v => k v | _ => r end.
 
 Fixpoint py_eval (en : env) (e : expr) : pres :=
   match e with
   | ENum z => PVal (VInt z)
+  | EFlt n d => PVal (VFloat n d)
   | EStr s => PVal (VStr s)
   | ENone => PVal VNone
   | EBoolC b => PVal (VBool b)
   | EName x => match assoc_z x (params en) with Some v => PVal v | None => PNameErr end
-  | ERead l => match sread en l with RVal v => PVal v | RValErr => PReadErr | RCrash => PCrash end
+  | ERead r => match rread en r with RVal v => PVal v | RValErr => PReadErr | RCrash => PCrash end
   | EBin o a b => pbind (py_eval en a) (fun va => pbind (py_eval en b) (fun vb => pres_of (py_binop o va vb)))
   | EUn o a => pbind (py_eval en a) (fun va => pres_of (py_unop o va))
   | ECmp o a b => pbind (py_eval en a) (fun va => pbind (py_eval en b) (fun vb => pres_of (py_cmp o va vb)))
   | EBool o a b => pbind (py_eval en a) (fun va => pbind (py_eval en b) (fun vb => PVal (py_boolop o va vb)))
   | EIf c a b => pbind (py_eval en c) (fun vc => if truthy vc then py_eval en a else py_eval en b)
+  | ETupNil => PVal (VTuple [])
+  | ETupCons a r => pbind (py_eval en a) (fun va => pbind (py_eval en r) (fun vr =>
+                      match vr with VTuple l => PVal (VTuple (va :: l)) | _ => PUnsup end))
+  | EIndex a i => pbind (py_eval en a) (fun va => pbind (py_eval en i) (fun vi => pres_of (py_getitem va vi)))
   end.
 
-(* the locations Python's evaluation reads *)
+(* the cells Python's evaluation reads *)
 Fixpoint reads (en : env) (e : expr) : list loc :=
   match e with
-  | ERead l => [l]
-  | EBin _ a b | ECmp _ a b | EBool _ a b =>
+  | ERead r => rcells en r
+  | EBin _ a b | ECmp _ a b | EBool _ a b | ETupCons a b | EIndex a b =>
       match py_eval en a with PVal _ => reads en a ++ reads en b | _ => reads en a end
   | EUn _ a => reads en a
   | EIf c a b =>
@@ -127,7 +245,7 @@ Inductive tres :=
   | TVal (v : value)
   | TEvalErr          (* TemplateEvalError (carries the subscription list) *)
   | TValueErr         (* ValueError *)
-  | TCrash            (* any other exception: KeyError, ZeroDivisionError, AssertionError, TypeError *)
+  | TCrash            (* any other exception: KeyError, ZeroDivisionError, IndexError, AssertionError, TypeError *)
   | TUnsup.
 
 (* result of calling a table entry inside  try: ... except TypeError: raise TemplateEvalError(subs) *)
@@ -135,7 +253,7 @@ Definition of_res (r : res) (subs : list loc) : tres * list loc :=
   match r with
   | Val v => (TVal v, subs)
   | TypeErr => (TEvalErr, subs)
-  | ZeroDiv => (TCrash, [])
+  | ZeroDiv | IndexErr => (TCrash, [])
   | Unsup => (TUnsup, [])
   end.
 
@@ -150,56 +268,102 @@ Definition with_subs (s : list loc) (r : tres * list loc) : tres * list loc :=
   | _ => r
   end.
 
-Fixpoint tmpl_eval (sub : bool) (en : env) (e : expr) : tres * list loc :=
-  match e with
-  | ENum z => (TVal (VInt z), [])
-  | EStr s => (TVal (VStr s), [])
-  | ENone => (TVal VNone, [])
-  | EBoolC b => (TVal (VBool b), [])
-  | EName x => match assoc_z x (params en) with Some v => (TVal v, []) | None => (TValueErr, []) end
-  | ERead l =>
-      match sread en l with
-      | RVal v => (TVal v, if sub then [l] else [])
-      | RValErr => if sub then (TEvalErr, [l]) else (TValueErr, [])
+(* _eval dispatches on type(node) through self._eval_methods (translated: node_methods); a node class
+   that is missing, or mapped to another walker, fails *)
+Definition dispatch (k : nodekey) (m : method) (r : tres * list loc) : tres * list loc :=
+  match node_methods k with
+  | Some m' => if method_eqb m m' then r else (TCrash, [])
+  | None => (TCrash, [])                                       (* raise TypeError(type(node)) *)
+  end.
+
+Definition read_walk (sub : bool) (en : env) (r : rdesc) : tres * list loc :=
+  match r with
+  | RCell (LMode _ _) =>
+      if sub then (TValueErr, [])           (* ModePlaceholder.subscribe -> "subscribe is not a valid mode name" *)
+      else match rread en r with RVal v => (TVal v, []) | RValErr => (TValueErr, []) | RCrash => (TCrash, []) end
+  | RCell (LGame _) =>
+      match game en with
+      | None => (TValueErr, [])             (* Missing variable game *)
+      | Some _ =>
+          if sub then (TCrash, [])          (* 'Game' object has no attribute 'subscribe' *)
+          else match rread en r with RVal v => (TVal v, []) | RValErr => (TValueErr, []) | RCrash => (TCrash, []) end
+      end
+  | _ =>
+      match rread en r with
+      | RVal v => (TVal v, if sub then rsubs r else [])
+      | RValErr => if sub then (TEvalErr, rsubs r) else (TValueErr, [])
       | RCrash => (TCrash, [])
       end
+  end.
+
+Fixpoint tmpl_eval (sub : bool) (en : env) (e : expr) : tres * list loc :=
+  match e with
+  | ENum z => dispatch NConstant M_eval_constant (TVal (VInt z), [])
+  | EFlt n d => dispatch NConstant M_eval_constant (TVal (VFloat n d), [])
+  | EStr s => dispatch NConstant M_eval_constant (TVal (VStr s), [])
+  | ENone => dispatch NConstant M_eval_constant (TVal VNone, [])
+  | EBoolC b => dispatch NConstant M_eval_constant (TVal (VBool b), [])
+  | EName x => dispatch NName M_eval_name
+                 (match assoc_z x (params en) with Some v => (TVal v, []) | None => (TValueErr, []) end)
+  | ERead r =>
+      dispatch NName M_eval_name
+        (dispatch NAttribute M_eval_attribute
+           (match r with
+            | RPlayerN _ _ => dispatch NSubscript M_eval_subscript (dispatch NConstant M_eval_constant (read_walk sub en r))
+            | _ => read_walk sub en r
+            end))
   | EBin o a b =>
-      tbind (tmpl_eval sub en a) (fun va sa =>
-      tbind (tmpl_eval sub en b) (fun vb sb =>
-        match operators o with
-        | Some p => of_res (prim_call2 p va vb) (sa ++ sb)
-        | None => (TCrash, [])                               (* KeyError *)
-        end))
+      dispatch NBinOp M_eval_bin_op
+      (tbind (tmpl_eval sub en a) (fun va sa =>
+       tbind (tmpl_eval sub en b) (fun vb sb =>
+         match operators o with
+         | Some p => of_res (prim_call2 p va vb) (sa ++ sb)
+         | None => (TCrash, [])                               (* KeyError *)
+         end)))
   | EUn o a =>
-      tbind (tmpl_eval sub en a) (fun va sa =>
-        match operators o with
-        | Some p => of_res (prim_call1 p va) sa
-        | None => (TCrash, [])
-        end)
+      dispatch NUnaryOp M_eval_unary_op
+      (tbind (tmpl_eval sub en a) (fun va sa =>
+         match operators o with
+         | Some p => of_res (prim_call1 p va) sa
+         | None => (TCrash, [])
+         end))
   | ECmp o a b =>
-      tbind (tmpl_eval sub en a) (fun va sa =>
-      tbind (tmpl_eval sub en b) (fun vb sb =>
-        match comparisons o with
-        | Some p => of_res (prim_call2 p va vb) (sa ++ sb)
-        | None => (TCrash, [])
-        end))
+      dispatch NCompare M_eval_compare
+      (tbind (tmpl_eval sub en a) (fun va sa =>
+       tbind (tmpl_eval sub en b) (fun vb sb =>
+         match comparisons o with
+         | Some p => of_res (prim_call2 p va vb) (sa ++ sb)
+         | None => (TCrash, [])
+         end)))
   | EBool o a b =>
-      tbind (tmpl_eval sub en a) (fun va sa =>
-      tbind (tmpl_eval sub en b) (fun vb sb =>
-        match bool_operators o with
-        | Some p => (TVal (bprim_call p va vb), sa ++ sb)
-        | None => (TCrash, [])
-        end))
+      dispatch NBoolOp M_eval_bool_op
+      (tbind (tmpl_eval sub en a) (fun va sa =>
+       tbind (tmpl_eval sub en b) (fun vb sb =>
+         match bool_operators o with
+         | Some p => (TVal (bprim_call p va vb), sa ++ sb)
+         | None => (TCrash, [])
+         end)))
   | EIf c a b =>
-      tbind (tmpl_eval sub en c) (fun vc sc =>
-        with_subs sc (if truthy vc then tmpl_eval sub en a else tmpl_eval sub en b))
+      dispatch NIfExp M_eval_if
+      (tbind (tmpl_eval sub en c) (fun vc sc =>
+         with_subs sc (if truthy vc then tmpl_eval sub en a else tmpl_eval sub en b)))
+  | ETupNil => dispatch NTuple M_eval_tuple (TVal (VTuple []), [])
+  | ETupCons a r =>
+      dispatch NTuple M_eval_tuple
+      (tbind (tmpl_eval sub en a) (fun va sa =>
+       tbind (tmpl_eval sub en r) (fun vr sr =>
+         match vr with VTuple l => (TVal (VTuple (va :: l)), sa ++ sr) | _ => (TUnsup, []) end)))
+  | EIndex a i =>
+      dispatch NSubscript M_eval_subscript
+      (tbind (tmpl_eval sub en a) (fun va sa =>
+       tbind (tmpl_eval sub en i) (fun vi si => of_res (py_getitem va vi) (sa ++ si))))
   end.
 
 (* ---- typed templates --------------------------------------------------------------------------- *)
-Inductive kind := KRaw | KBoolT | KIntT.
+Inductive kind := KRaw | KBoolT | KIntT | KFloatT.
 Inductive outcome :=
   | OVal (v : value)
-  | OAssert            (* an exception escapes (AssertionError / ValueError / TypeError) *)
+  | OAssert            (* an exception escapes (AssertionError / ValueError / TypeError / AttributeError) *)
   | OUnsup.
 
 Definition convert (k : kind) (v : value) : outcome :=
@@ -209,9 +373,22 @@ Definition convert (k : kind) (v : value) : outcome :=
   | KIntT => match v with
              | VBool b => OVal (VInt (b2z b))
              | VInt z => OVal (VInt z)
-             | VNone => OAssert               (* int(None): TypeError *)
+             | VFloat n d => OVal (VInt (Qtrunc (n # d)))
+             | VNone | VTuple _ => OAssert    (* int(None): TypeError *)
              | VStr _ => OUnsup               (* int("..."): text parsing is not modelled *)
              end
+  | KFloatT => match v with
+               | VFloat _ _ => OVal v
+               | VNone | VTuple _ => OAssert
+               | VStr _ => OUnsup
+               | _ => match as_num v with
+                      | Some x => match num_fl x with
+                                  | Some q => OVal (VFloat (Qnum q) (Qden q))
+                                  | None => OUnsup
+                                  end
+                      | None => OAssert
+                      end
+               end
   end.
 
 (* BaseTemplate.evaluate(parameters): the default is returned as it is *)
@@ -235,62 +412,69 @@ Definition evaluate_and_subscribe (k : kind) (dflt : value) (en : env) (e : expr
   end.
 
 (* ---- change histories and the subscriber loop ---------------------------------------------------
-   A setting is read from the machine variable configured for it; in the model the harness names
-   that variable like the setting, i.e. LSetting n is backed by machine variable n (the real rig
-   is configured the same way), and the value read is resolved by the harness (invalid -> default)
-   and supplied in the operation. *)
+   A setting is read from the machine variable configured for it; the value read is resolved by the
+   harness (valid values only) and supplied in the operation. *)
 Inductive change :=
   | CSetMachine (n : str) (v : value)
   | CRemoveMachine (n : str)
   | CSetSetting (n : str) (v : value)
-  | CSetPlayer (n : str) (v : value)
-  | CSetDevice (c d a : str) (v : value).
+  | CSetDevice (c d a : str) (v : value)
+  | CSetPlayerVar (i : Z) (x : str) (v : value)     (* player index i of the running game *)
+  | CStartGame                                      (* no game -> a game with one player whose first ball started *)
+  | CAddPlayer
+  | CNextTurn                                       (* the ball ended: the next player (or the same one) starts a ball *)
+  | CEndGame (slow : bool).                         (* slow: a queue handler delays mode_game_stopping *)
 
-Definition changed_loc (c : change) : loc :=
+Definition s_score : str := [115; 99; 111; 114; 101].
+Definition s_number : str := [110; 117; 109; 98; 101; 114].
+Definition s_index : str := [105; 110; 100; 101; 120].
+Definition s_ball : str := [98; 97; 108; 108].
+
+Definition cell_int (en : env) (l : loc) : Z :=
+  match sread en l with RVal (VInt z) => z | _ => 0 end.
+
+(* the cells a change writes, with their new content *)
+Definition writes (en : env) (c : change) : list (loc * rd) :=
   match c with
-  | CSetMachine n _ | CRemoveMachine n => LMachine n
-  | CSetSetting n _ => LSetting n
-  | CSetPlayer n _ => LPlayer n
-  | CSetDevice c d a _ => LDevice c d a
-  end.
-
-Definition new_rd (c : change) : rd :=
-  match c with
-  | CSetMachine _ v | CSetSetting _ v | CSetPlayer _ v | CSetDevice _ _ _ v => RVal v
-  | CRemoveMachine _ => RVal VNone
-  end.
-
-Definition set_store (l : loc) (r : rd) (en : env) : env :=
-  mkEnv (params en) ((l, r) :: store en) (in_game en).
-
-Definition rd_py_eqb (a b : rd) : bool :=
-  match a, b with
-  | RVal x, RVal y => py_eqb x y
-  | RValErr, RValErr | RCrash, RCrash => true
-  | _, _ => false
-  end.
-
-(* is the change announced (event posted / attribute future completed)?
-   machine variables, settings: machine_var_<n> is posted iff  value - prev  (or value != prev) is
-   truthy, i.e. iff not (prev == value); removal (fixed) posts iff the variable existed;
-   player variables: iff the value changed (or the variable is new) and the value is an int/str;
-   device attributes: iff old != value. *)
-Definition announces (en : env) (c : change) : bool :=
-  let l := changed_loc c in
-  match c with
-  | CSetMachine _ v | CSetSetting _ v =>
-      match lookup_loc l (store en) with
-      | Some (RVal p) => negb (py_eqb p v)
-      | _ => true
+  | CSetMachine n v => [(LMachine n, RVal v)]
+  | CRemoveMachine _ => []                                       (* handled by remove_loc *)
+  | CSetSetting n v => [(LSetting n, RVal v)]
+  | CSetDevice c d a v => [(LDevice c d a, RVal v)]
+  | CSetPlayerVar i x v =>
+      match game en with
+      | Some (_, n) => if (0 <=? i) && (i <? n) then [(LPlayerI (games en) i x, RVal v)] else []
+      | None => []
       end
-  | CRemoveMachine _ =>
-      match lookup_loc l (store en) with Some _ => true | None => false end
-  | CSetPlayer _ v =>
-      (match lookup_loc l (store en) with
-       | Some (RVal p) => negb (py_eqb p v)
-       | _ => true
-       end) && (match v with VNone => false | _ => true end)
-  | CSetDevice _ _ _ v => negb (rd_py_eqb (sread en l) (RVal v))
+  | CStartGame =>
+      match game en with
+      | Some _ => []
+      | None => let g := games en + 1 in
+                [(LPlayerI g 0 s_index, RVal (VInt 0)); (LPlayerI g 0 s_number, RVal (VInt 1));
+                 (LPlayerI g 0 s_score, RVal (VInt 0)); (LPlayerI g 0 s_ball, RVal (VInt 1))]
+      end
+  | CAddPlayer =>
+      match game en with
+      | Some (_, n) => let g := games en in
+                       [(LPlayerI g n s_index, RVal (VInt n)); (LPlayerI g n s_number, RVal (VInt (n + 1)));
+                        (LPlayerI g n s_score, RVal (VInt 0))]
+      | None => []
+      end
+  | CNextTurn =>
+      match game en with
+      | Some (c, n) => let c' := (c + 1) mod n in
+                       [(LPlayerI (games en) c' s_ball, RVal (VInt (cell_int en (LPlayerI (games en) c' s_ball) + 1)))]
+      | None => []
+      end
+  | CEndGame _ => []
+  end.
+
+Definition new_game (en : env) (c : change) : Z * option (Z * Z) :=
+  match c, game en with
+  | CStartGame, None => (games en + 1, Some (0, 1))
+  | CAddPlayer, Some (c, n) => (games en, Some (c, n + 1))
+  | CNextTurn, Some (c, n) => (games en, Some ((c + 1) mod n, n))
+  | CEndGame _, Some _ => (games en, None)
+  | _, g => (games en, g)
   end.
 
 Fixpoint remove_loc (l : loc) (s : list (loc * rd)) : list (loc * rd) :=
@@ -300,10 +484,101 @@ Fixpoint remove_loc (l : loc) (s : list (loc * rd)) : list (loc * rd) :=
   end.
 
 Definition apply_change (en : env) (c : change) : env :=
+  let st := match c with
+            | CRemoveMachine n => remove_loc (LMachine n) (store en)
+            | _ => writes en c ++ store en
+            end in
+  let '(g, gm) := new_game en c in
+  mkEnv (params en) st g gm.
+
+(* the cells whose content a change may alter *)
+Definition changed_locs (en : env) (c : change) : list loc :=
   match c with
-  | CRemoveMachine n => mkEnv (params en) (remove_loc (LMachine n) (store en)) (in_game en)
-  | _ => set_store (changed_loc c) (new_rd c) en
+  | CRemoveMachine n => [LMachine n]
+  | CStartGame | CAddPlayer | CNextTurn | CEndGame _ => LTurn :: LPlayers :: map fst (writes en c)
+  | _ => map fst (writes en c)
   end.
+
+Definition rd_py_eqb (a b : rd) : bool :=
+  match a, b with
+  | RVal x, RVal y => py_eqb x y
+  | RValErr, RValErr | RCrash, RCrash => true
+  | _, _ => false
+  end.
+
+(* machine_vars.set_machine_var / Player.__setattr__:  change = value - prev  (TypeError: prev != value) *)
+Definition change_truthy (p v : value) : bool :=
+  match py_sub v p with
+  | Val d => truthy d
+  | _ => negb (py_eqb p v)
+  end.
+
+(* isinstance(value, (int, str, float)) *)
+Definition event_type (v : value) : bool :=
+  match v with VBool _ | VInt _ | VStr _ | VFloat _ _ => true | _ => false end.
+
+(* the channels a change completes, AFTER the cells have their new content.
+   machine variables, settings: machine_var_<n> is posted iff  value - prev  (or value != prev) is
+   truthy or the variable is new; removal (fixed) posts iff the variable existed;
+   player variables: iff (changed or new) and the value is an int/str/float;
+   device attributes: iff old != value;
+   game start: player_added, player_<x> for every initial variable (enable_events sends them all),
+   player_ball, player_turn_started;  add player: player_added + the new player's variables;
+   ball end: player_turn_ended, player_ball, player_turn_started;
+   game end (fixed): mode_game_stopped wakes both the current_player and the players placeholder. *)
+Definition announced_gen (fixed : bool) (en : env) (c : change) : list loc :=
+  match c with
+  | CSetMachine n v =>
+      match lookup_loc (LMachine n) (store en) with
+      | Some (RVal p) => if change_truthy p v then [LMachine n] else []
+      | _ => [LMachine n]
+      end
+  | CSetSetting n v =>
+      match lookup_loc (LSetting n) (store en) with
+      | Some (RVal p) => if change_truthy p v then [LSetting n] else []
+      | _ => [LSetting n]
+      end
+  | CRemoveMachine n =>
+      match lookup_loc (LMachine n) (store en) with Some _ => [LMachine n] | None => [] end
+  | CSetDevice c d a v =>
+      if rd_py_eqb (sread en (LDevice c d a)) (RVal v) then [] else [LDevice c d a]
+  | CSetPlayerVar i x v =>
+      match game en with
+      | Some (_, n) =>
+          if (0 <=? i) && (i <? n) then
+            if (match lookup_loc (LPlayerI (games en) i x) (store en) with
+                | Some (RVal p) => change_truthy p v
+                | Some _ => true
+                | None => true                                   (* new entry *)
+                end) && event_type v
+            then [LPlayerEv x] else []
+          else []
+      | None => []
+      end
+  | CStartGame =>
+      match game en with
+      | None => [LPlayers; LPlayerEv s_index; LPlayerEv s_number; LPlayerEv s_score; LPlayerEv s_ball; LTurn]
+      | Some _ => []
+      end
+  | CAddPlayer =>
+      match game en with
+      | Some _ => [LPlayers; LPlayerEv s_index; LPlayerEv s_number; LPlayerEv s_score]
+      | None => []
+      end
+  | CNextTurn =>
+      match game en with
+      | Some _ => [LTurn; LPlayerEv s_ball]
+      | None => []
+      end
+  | CEndGame slow =>
+      match game en with
+      | Some _ => if fixed then [LTurn; LPlayers]
+                  else if slow then [] else [LPlayers]           (* game_ended arrives before / after machine.game = None *)
+      | None => []
+      end
+  end.
+Definition announced := announced_gen true.
+Definition announced_unfixed := announced_gen false.
 
 (* the subscriber of ConfigPlayer._update_subscription: holds the last delivered value and the
    subscription list of the last evaluation *)
@@ -319,37 +594,40 @@ Definition outcome_eqb (a b : outcome) : bool :=
 Definition subscribe_now (k : kind) (dflt : value) (en : env) (e : expr) : subscriber :=
   let '(o, s) := evaluate_and_subscribe k dflt en e in mkSub o s.
 
+Definition woken (ann sb : list loc) : bool :=
+  existsb (fun a => existsb (loc_eqb a) sb) ann.
+
 (* one change: returns the new environment, the new subscriber and whether it was re-evaluated *)
-Definition hstep (k : kind) (dflt : value) (e : expr) (st : env * subscriber) (c : change)
-  : env * subscriber * bool :=
+Definition hstep_gen (ann : env -> change -> list loc) (k : kind) (dflt : value) (e : expr)
+           (st : env * subscriber) (c : change) : env * subscriber * bool :=
   let '(en, sb) := st in
   let en' := apply_change en c in
-  if announces en c && existsb (loc_eqb (changed_loc c)) (subs sb)
+  if woken (ann en c) (subs sb)
   then (en', subscribe_now k dflt en' e, true)
   else (en', sb, false).
+Definition hstep := hstep_gen announced.
 
-Fixpoint hrun (k : kind) (dflt : value) (e : expr) (st : env * subscriber) (cs : list change)
-  : list (bool * outcome) :=
+Fixpoint hrun_gen (ann : env -> change -> list loc) (k : kind) (dflt : value) (e : expr)
+         (st : env * subscriber) (cs : list change) : list (bool * outcome) :=
   match cs with
   | [] => []
   | c :: cs' =>
-      let '(en', sb', fired) := hstep k dflt e st c in
-      (fired, last sb') :: hrun k dflt e (en', sb') cs'
+      let '(en', sb', fired) := hstep_gen ann k dflt e st c in
+      (fired, last sb') :: hrun_gen ann k dflt e (en', sb') cs'
   end.
+Definition hrun := hrun_gen announced.
 
 (* ---- entry points for the correspondence files ------------------------------------------------- *)
-Definition binop_run (i : opkey * value * value) : res := let '(o, a, b) := i in py_binop o a b.
-Definition unop_run (i : opkey * value) : res := let '(o, a) := i in py_unop o a.
-Definition cmp_run (i : cmpkey * value * value) : res := let '(o, a, b) := i in py_cmp o a b.
-
 Inductive opcase := OBin (o : opkey) (a b : value) | OUn (o : opkey) (a : value)
-                  | OCmp (o : cmpkey) (a b : value) | OBool (o : boolkey) (a b : value).
+                  | OCmp (o : cmpkey) (a b : value) | OBool (o : boolkey) (a b : value)
+                  | OIndex (a i : value).
 Definition ops_run (c : opcase) : res :=
   match c with
   | OBin o a b => py_binop o a b
   | OUn o a => py_unop o a
   | OCmp o a b => py_cmp o a b
   | OBool o a b => Val (py_boolop o a b)
+  | OIndex a i => py_getitem a i
   end.
 
 (* expression case: (kind, default, env, expr) -> (evaluate, evaluate_and_subscribe's value, python) *)
@@ -360,7 +638,8 @@ Definition expr_run (i : kind * value * env * expr) : outcome * outcome * pres :
 Definition pres_eqb (a b : pres) : bool :=
   match a, b with
   | PVal x, PVal y => value_eqb x y
-  | PTypeErr, PTypeErr | PZeroDiv, PZeroDiv | PNameErr, PNameErr | PReadErr, PReadErr | PCrash, PCrash => true
+  | PTypeErr, PTypeErr | PZeroDiv, PZeroDiv | PIndexErr, PIndexErr | PNameErr, PNameErr
+  | PReadErr, PReadErr | PCrash, PCrash => true
   | _, _ => false
   end.
 Definition expr_out_eqb (a b : outcome * outcome * pres) : bool :=
